@@ -6,6 +6,7 @@ import (
 	"sync"
 	"testing"
 
+	"github.com/libsv/go-bt/v2"
 	"github.com/libsv/go-bt/v2/sighash"
 	"pgregory.net/rapid"
 
@@ -25,6 +26,10 @@ type ConcCase struct {
 	Types      []int  `json:"types"`
 	Goroutines int    `json:"goroutines"`
 	Rounds     int    `json:"rounds"`
+	// Own gives every goroutine a transaction object of its own (the drawn one with its lock time,
+	// one sequence number and one outpoint index changed per goroutine): unrelated objects hashed
+	// at the same moment may share nothing either, whatever the package keeps between calls.
+	Own bool `json:"own,omitempty"`
 }
 
 func checkConcurrent(ctx *pbt.Ctx, c ConcCase) error {
@@ -37,23 +42,52 @@ func checkConcurrent(ctx *pbt.Ctx, c ConcCase) error {
 		idx, ht           int
 		wantPre, wantHash []byte
 	}
-	reqs := make([]req, len(c.Idx))
-	for i := range c.Idx {
-		idx := c.Idx[i] % len(m.In)
-		ht := c.Types[i] & 0xff
-		r := req{idx: idx}
-		if legacyEdits {
-			ht &^= 0x40
-			r.wantPre, r.wantHash = ref.SigHashLegacy(m, idx, m.In[idx].PrevScript, uint32(ht), false)
-		} else {
-			ht |= 0x40
-			r.wantPre, r.wantHash = ref.SigHashForkID(m, idx, m.In[idx].PrevScript, m.In[idx].PrevSats, uint32(ht))
-		}
-		r.ht = ht
-		reqs[i] = r
+	nObj := 1
+	if c.Own {
+		nObj = c.Goroutines
 	}
-	tx := ref.ToLib(m)
-	before := ref.Snapshot(tx)
+	models := make([]ref.Tx, nObj)
+	allReqs := make([][]req, nObj)
+	txs := make([]*bt.Tx, nObj)
+	befores := make([]ref.Tx, nObj)
+	for o := 0; o < nObj; o++ {
+		mo := m
+		if o > 0 {
+			mo.In = append([]ref.In{}, m.In...)
+			mo.LockTime += uint32(o)
+			mo.In[o%len(mo.In)].Seq ^= uint32(o + 1)
+			mo.In[(o+1)%len(mo.In)].Vout += uint32(o)
+		}
+		models[o] = mo
+		reqs := make([]req, len(c.Idx))
+		for i := range c.Idx {
+			idx := c.Idx[i] % len(mo.In)
+			ht := c.Types[i] & 0xff
+			r := req{idx: idx}
+			if legacyEdits {
+				ht &^= 0x40
+				r.wantPre, r.wantHash = ref.SigHashLegacy(mo, idx, mo.In[idx].PrevScript, uint32(ht), false)
+			} else {
+				ht |= 0x40
+				r.wantPre, r.wantHash = ref.SigHashForkID(mo, idx, mo.In[idx].PrevScript, mo.In[idx].PrevSats, uint32(ht))
+			}
+			r.ht = ht
+			reqs[i] = r
+		}
+		allReqs[o] = reqs
+		var via string
+		txs[o], via = ref.ToLibVia(mo)
+		if o == 0 {
+			ctx.Label("object=" + via)
+		}
+		befores[o] = ref.Snapshot(txs[o])
+	}
+	what := "one shared transaction"
+	if c.Own {
+		what = "a transaction of their own each"
+		ctx.Label("own_objects")
+	}
+	ctx.Labelf("inputs=%s", map[bool]string{true: ">32", false: "<=32"}[len(m.In) > 32])
 	var mu sync.Mutex
 	var first error
 	var wg sync.WaitGroup
@@ -63,6 +97,7 @@ func checkConcurrent(ctx *pbt.Ctx, c ConcCase) error {
 		go func(g int) {
 			defer wg.Done()
 			<-start
+			tx, reqs := txs[g%nObj], allReqs[g%nObj]
 			for round := 0; round < c.Rounds; round++ {
 				for k := g % len(reqs); k < len(reqs); k += 1 + g%3 {
 					r := reqs[k]
@@ -77,11 +112,11 @@ func checkConcurrent(ctx *pbt.Ctx, c ConcCase) error {
 					var bad error
 					switch {
 					case err != nil || err2 != nil:
-						bad = fmt.Errorf("input %d type %#x: error %v / %v while %d goroutines hash one transaction", r.idx, r.ht, err, err2, c.Goroutines)
+						bad = fmt.Errorf("input %d type %#x: error %v / %v while %d goroutines hash %s", r.idx, r.ht, err, err2, c.Goroutines, what)
 					case !bytes.Equal(pre, r.wantPre):
-						bad = fmt.Errorf("input %d type %#x: preimage differs from the specified one while %d goroutines hash one shared transaction:\n got  %x\n want %x", r.idx, r.ht, c.Goroutines, pre, r.wantPre)
+						bad = fmt.Errorf("input %d type %#x: preimage differs from the specified one while %d goroutines hash %s:\n got  %x\n want %x", r.idx, r.ht, c.Goroutines, what, clipB(pre), clipB(r.wantPre))
 					case !bytes.Equal(h, r.wantHash):
-						bad = fmt.Errorf("input %d type %#x: signature hash %x, specified %x, while %d goroutines hash one shared transaction", r.idx, r.ht, h, r.wantHash, c.Goroutines)
+						bad = fmt.Errorf("input %d type %#x: signature hash %x, specified %x, while %d goroutines hash %s", r.idx, r.ht, h, r.wantHash, c.Goroutines, what)
 					}
 					if bad != nil {
 						mu.Lock()
@@ -100,11 +135,13 @@ func checkConcurrent(ctx *pbt.Ctx, c ConcCase) error {
 	if first != nil {
 		return first
 	}
-	if after := ref.Snapshot(tx); !ref.SameSnapshot(before, after) {
-		return fmt.Errorf("transaction changed by concurrent hash calls: %s", ref.DiffSnapshot(before, after))
+	for o := range txs {
+		if after := ref.Snapshot(txs[o]); !ref.SameSnapshot(befores[o], after) {
+			return fmt.Errorf("transaction changed by concurrent hash calls: %s", ref.DiffSnapshot(befores[o], after))
+		}
 	}
 	ctx.Labelf("goroutines=%d", c.Goroutines)
-	if len(reqs) >= 2 {
+	if len(c.Idx) >= 2 {
 		ctx.NonTrivial()
 	}
 	return nil
@@ -115,7 +152,12 @@ func TestConcurrent(t *testing.T) {
 		Name: "concurrent", Quick: 1200, Thorough: 24000,
 		Gen: func(t *rapid.T) ConcCase {
 			o := gen.TxOpts{MinIn: 2, MaxIn: 6, MinOut: 0, MaxOut: 4, MaxScript: 60, ScriptEdges: []int{0, 1, 25}}
+			if rapid.IntRange(0, 3).Draw(t, "many_inputs") == 0 { // counts on both sides of 16, 32, 64, 128 and of the varint boundary
+				k := rapid.SampledFrom([]int{15, 16, 17, 31, 32, 33, 40, 63, 64, 65, 100, 127, 128, 129, 140, 252, 253, 300}).Draw(t, "nin")
+				o.MinIn, o.MaxIn, o.MaxScript = k, k, 30
+			}
 			c := ConcCase{Tx: gen.Tx(t, o)}
+			c.Own = rapid.Bool().Draw(t, "own")
 			n := rapid.IntRange(2, 8).Draw(t, "requests")
 			for i := 0; i < n; i++ {
 				c.Idx = append(c.Idx, rapid.IntRange(0, len(c.Tx.In)-1).Draw(t, "idx"))
@@ -127,4 +169,11 @@ func TestConcurrent(t *testing.T) {
 		},
 		Check: checkConcurrent,
 	})
+}
+
+func clipB(b []byte) []byte {
+	if len(b) > 300 {
+		return b[:300]
+	}
+	return b
 }
